@@ -23,6 +23,13 @@ type c01variant struct {
 	pruning   [2]int64
 	restart   string // "", "every", "middle"
 	traffic   bool
+	// node-local settings used by successive reopenings (cycled); empty = the initial ones
+	reopen []c01reopen
+}
+
+type c01reopen struct {
+	pruning [2]int64
+	lazy    bool
 }
 
 func c01variants(tier string) []c01variant {
@@ -34,6 +41,8 @@ func c01variants(tier string) []c01variant {
 		{name: "P:prune-everything", pruning: [2]int64{0, 0}},
 		{name: "P:prune-everything+restart", pruning: [2]int64{0, 0}, restart: "every"},
 		{name: "P:keep-recent-1-every-2", pruning: [2]int64{1, 2}, mountPerm: 5},
+		// an operator may change node-local settings across a restart: lazy loading, pruning window
+		{name: "R:reopen-lazy+changing-pruning", pruning: [2]int64{1, 3}, restart: "every", reopen: []c01reopen{{[2]int64{1, 3}, true}, {[2]int64{3, 2}, false}, {[2]int64{0, 0}, true}, {[2]int64{2, 0}, false}}},
 	}
 	if tier == "thorough" {
 		vs = append(vs, c01variant{name: "P:syncable", pruning: [2]int64{100, 10000}},
@@ -93,6 +102,7 @@ func runC01variant(cfg chain.Config, v *c01variant, blocks []chain.Block) (tr c0
 	d := chain.NewDriver(cfg)
 	defer func() { d.Close() }()
 	tr.init = chain.UpdatesString(d.InitVals)
+	reopens := 0
 	for i, b := range blocks {
 		if d.Dead {
 			break
@@ -132,7 +142,24 @@ func runC01variant(cfg chain.Config, v *c01variant, blocks []chain.Block) (tr c0
 			tr.infos[len(tr.infos)-1] += "!=commit"
 		}
 		if v != nil && (v.restart == "every" || v.restart == "middle" && i == len(blocks)/2) {
-			d.Restart()
+			if len(v.reopen) > 0 {
+				ro := v.reopen[reopens%len(v.reopen)]
+				reopens++
+				func() {
+					defer func() {
+						if r := recover(); r != nil {
+							tr.infos[len(tr.infos)-1] += fmt.Sprintf("|reopen-panicked:%.200v", r)
+							d.Dead = true
+						}
+					}()
+					d.RestartWith(ro.pruning, ro.lazy)
+				}()
+				if d.Dead {
+					break
+				}
+			} else {
+				d.Restart()
+			}
 			info2 := d.App.Info(abci.RequestInfo{})
 			if info2.LastBlockHeight != info.LastBlockHeight || !bytes.Equal(info2.LastBlockAppHash, info.LastBlockAppHash) {
 				tr.infos[len(tr.infos)-1] += fmt.Sprintf("|after-reopen:%d/%X", info2.LastBlockHeight, info2.LastBlockAppHash)
